@@ -38,7 +38,13 @@ class ScenUnit:
             for q in self.targets:
                 tu.func(q)            # must exist with a body (extraction break -> undecided)
             for (tag, runner) in self.gen(tu):
-                runs = explore(runner, self.max_paths)
+                try:
+                    runs = explore(runner, self.max_paths)
+                except (SymxError, ExtractionError, KeyError, AttributeError, TypeError, IndexError) as e:
+                    # this scenario is outside the interpreter's reach on this tree: undecided, the others still count
+                    n_ob += 1
+                    undecided = undecided or "%s[%s]: %s: %s" % (self.name(), tag, type(e).__name__, e)
+                    continue
                 for (trace, obs) in runs:
                     ttag = ";".join("%s=%s" % (("%s:%s" % (l[1], l[2])) if isinstance(l, tuple) and len(l) > 2 else l, d) for l, d in trace)
                     for (oid, status, msg, c) in obs:
